@@ -150,7 +150,8 @@ func genC11Authz(r *rand.Rand, g *gen.G, p *vm.Plan) {
 	vias := []string{"AuthorizerFor", "Authorizer", "NewVerifier"}
 	r.Shuffle(3, func(i, j int) { vias[i], vias[j] = vias[j], vias[i] })
 	for _, via := range vias[:2+r.Intn(2)] {
-		b.verify(tok, key, az, lim, via, nil)
+		// sometimes the caller retries Authorize on the same authorizer after whatever happened
+		b.add(vm.Op{K: "verify", A: tok, KS: &vm.KeySel{Key: key}, Az: &az, Lim: lim, Via: via, N: r.Intn(3) / 2})
 	}
 	p.Note = "authz"
 }
